@@ -4,20 +4,23 @@ E1 product: destination kind x trashed kind x --overwrite x selection shape x so
 The trashed entries are produced by the real trash-put; the destination is then planted by the
 harness; the real trash-restore runs with the reply on stdin."""
 from .. import cell, scen, world
-from ..explore import product
+from ..explore import faults, product
 
 PID = 'C06'
 LEVEL = 'exploration'
-TECHNIQUE = 'bounded-exhaustive enumeration (model checking of the implementation): full product of destination kinds x entry kinds x options, every point executed on the real scripts in a chroot cell'
+TECHNIQUE = ('bounded-exhaustive enumeration (model checking of the implementation): full product of destination kinds x entry kinds x options, every point executed on the real scripts in a chroot cell; '
+             'plus exhaustive single-fault injection (deviation bound 1) over the restore traces of the occupied destinations without --overwrite')
 LEVEL_TEXT = ('every combination of destination kind, trashed kind, --overwrite, selection shape and sort mode is executed '
               'on the real trash-put/trash-restore and judged on before/after disk snapshots; exhaustive over the stated finite '
-              'alphabet, which contains one representative of every branch of the existence probe and of shutil.move')
+              'alphabet, which contains one representative of every branch of the existence probe and of shutil.move; "an occupied destination is never replaced" '
+              'is also checked when any single file-system call of the restore run fails (EACCES, EIO, ENAMETOOLONG, ...; not ENOENT / ENOTDIR, which describe another world)')
 LEVEL_NOTE = 'trusted: CPython/shutil, tmpfs, the snapshot comparer; names and contents outside the alphabet are not covered'
 RULE = ('full Cartesian product of destination kind (absent, regular file, empty dir, non-empty dir, '
         'symlink->file, symlink->dir, dangling symlink, regular file owned by another user) x trashed kind (6) x --overwrite x selection '
         'shape (single / "0,1" with first or second blocked / "0-1") x --sort, and single selections again with the trash directory named by --trash-dir; plus an entry whose place gets taken by a directory restored earlier in the same run; plus the same location trashed twice and both indices chosen in one run (parent kept / removed); every point executed '
         'on the real trash-put + trash-restore; non-trivial = the run reached the existence probe '
-        '(listing printed and an index chosen), distinct = outcome class x dest x kind x overwrite')
+        '(listing printed and an index chosen), distinct = outcome class x dest x kind x overwrite; fault stage: occupied destination (9) x trashed kind (6) (single selection, no --overwrite, '
+        '--sort date; thorough also via --trash-dir) x every operation of the fault-free restore trace x every failure errno of that call, one fault per run')
 DESTS = ['absent', 'file', 'file-same-stat', 'file-other-owner', 'file-readonly', 'emptydir', 'dir', 'lfile', 'ldir', 'ldang']
 SELS = ['single', 'comma-first', 'comma-second', 'range-first', 'range-second']
 SORTS = ['date', 'path', 'none']
@@ -28,6 +31,20 @@ TD = scen.HOME_TRASH
 def dimensions(tier):
     return {'dest': len(DESTS), 'kind': len(scen.KINDS), 'overwrite': 2,
             'selection': len(SELS), 'sort': len(sorts(tier))}
+
+
+def fault_stage(tier, cases_, outs):
+    """"never replaced" has a verdict whatever the file system answers: for every occupied destination kind x trashed kind (one entry
+    selected, no --overwrite) every operation of the restore run's fault-free trace fails once with every errno that reports a failure"""
+    out = []
+    for c, o in zip(cases_, outs):
+        if o.get('ops') and not c.get('part') and not c.get('name') and c['sel'] == 'single' and not c['ow'] and c['dest'] != 'absent' \
+                and c['sort'] == 'date' and (tier == 'thorough' or not c.get('via')):
+            for f in faults.single_faults(o['ops']):
+                if f['errno'] in ('ENOENT', 'ENOTDIR'):
+                    continue        # "it is not there" describes another world (the destination was removed at that instant): then restoring onto the place is right
+                out.append(dict({k: v for k, v in c.items() if k != 'id'}, faults=[f]))
+    return out
 
 
 def sorts(tier):
@@ -305,10 +322,26 @@ def run_case(c):
             argv.append(bpath)          # the entry's own path given as the PATH argument (cwd elsewhere)
         reply = {'single': '0', 'comma-first': '0,1', 'comma-second': '0,1',
                  'range-first': '0-1', 'range-second': '0-1'}[c['sel']]
-        r = sb.run(argv, stdin=reply + '\n', cwd=W if argv[-1] != bpath else '/outside')
+        flts = c.get('faults') or []
+        r = sb.run(argv, stdin=reply + '\n', cwd=W if argv[-1] != bpath else '/outside', plan={'faults': flts} if flts else None)
         after = sb.snapshot()
     listing = scen.parse_restore_listing(r.out)
     detail = {'argv': argv, 'exit': r.exit, 'err': r.err[-300:], 'listing': listing}
+    if flts:
+        f = flts[0]
+        delivered = any(t[0] == f['at'] and t[4] == f['errno'] for t in r.trace)
+        fd = 'dest=%s|kind=%s|%s:%s' % (c['dest'], c['kind'], f['op'], f['errno'])
+        if world.under(before, bpath) != world.under(after, bpath):
+            return {'verdict': 'viol', 'sig': 'C06|clobbered|dest=%s|ow=0|after-%s-%s' % (c['dest'], f['op'], f['errno']), 'klass': 'clobbered-under-fault',
+                    'nontrivial': delivered and ('clobbered|' + fd), 'detail': dict(detail, faults=flts), 'delivered': delivered}
+        return {'verdict': 'ok', 'klass': 'not-clobbered-under-fault', 'nontrivial': delivered and ('kept|' + fd), 'detail': dict(detail, faults=flts), 'delivered': delivered}
+    res = judge(c, r, orig, before, after, listing, detail, bname, bpath, multi)
+    if not c['ow'] and c['sel'] == 'single' and c['dest'] != 'absent':
+        res['ops'] = faults.ops_of(r.trace)
+    return res
+
+
+def judge(c, r, orig, before, after, listing, detail, bname, bpath, multi):
     dims = 'dest=%s|kind=%s|ow=%d%s' % (c['dest'], c['kind'], c['ow'], '|--trash-dir' if c.get('via') else '')
     reached = len(listing) == (2 if multi else 1)
     pair_b_before = (before.get(TD + '/info/%s.trashinfo' % bname), world.under(before, TD + '/files/' + bname))
